@@ -61,8 +61,9 @@ fn accept_once(f_cur: f64, f_cand: f64, t: f64, seed: u64) -> Result<u32, (Strin
 }
 
 fn acceptance_grid(rep: &Reporter) {
-    let objs = [-3.0, 0.0, 1.0, 1.0 + 1e-9, 2.0, 50.0, f64::INFINITY];
-    let temps = [1e-12, 1e-3, 0.1, 1.0, 10.0, 1e6, 1e12];
+    let objs = [-3.0, 0.0, 1e-20, 1.0, 1.0 + 1e-9, 2.0, 50.0, f64::MAX, f64::INFINITY];
+    // incl. temperatures the cooling schedule reaches late in a run (alpha = 0 gives exactly 0)
+    let temps = [0.0, 1e-300, 1e-24, 1e-12, 1e-3, 0.1, 1.0, 10.0, 1e6, 1e12, 1e300];
     let n = rep.tier.pick(5_000u64, 20_000u64);
     let band = ((2.0f64 / 1e-10).ln() / (2.0 * n as f64)).sqrt();
     rep.set("seeds_per_cell", json!(n));
@@ -226,7 +227,7 @@ impl<'r> TemplateVisitor for V<'r> {
 
 fn main() {
     let rep = Reporter::from_args("C17");
-    rep.rule("prepared three-population states [untouched, [current], [candidate]] of tagged individuals over (f_current, f_candidate) in {-3,0,1,1+1e-9,2,50,+inf}^2 x T in {1e-12,1e-3,.1,1,10,1e6,1e12} x N seeds: survivor and stack shape per run; candidate <= current must be accepted for every seed; a worse candidate must be accepted with a frequency inside the Hoeffding band around exp(-delta/T) (never for p<1e-12, always for p>1-1e-12); GeometricCooling over alpha x T0 for >=1200 consecutive executions, bit-exact T*alpha each time, alpha outside [0,1) rejected; plus every acceptance and cooling step of the two SA templates observed at the hook. distinct_nontrivial = distinct (f_current, f_candidate, T) cells + cooling cells + template runs");
+    rep.rule("prepared three-population states [untouched, [current], [candidate]] of tagged individuals over (f_current, f_candidate) in {-3,0,1e-20,1,1+1e-9,2,50,MAX,+inf}^2 x T in {0,1e-300,1e-24,1e-12,1e-3,.1,1,10,1e6,1e12,1e300} x N seeds: survivor and stack shape per run; candidate <= current must be accepted for every seed; a worse candidate must be accepted with a frequency inside the Hoeffding band around exp(-delta/T) (never for p<1e-12, always for p>1-1e-12); GeometricCooling over alpha x T0 for >=1200 consecutive executions, bit-exact T*alpha each time, alpha outside [0,1) rejected; plus every acceptance and cooling step of the two SA templates observed at the hook. distinct_nontrivial = distinct (f_current, f_candidate, T) cells + cooling cells + template runs");
     rep.assume("candidate = top population (the perturbed copy), current = the one below, as in the SA template; frequency band for a false-alarm probability of 1e-10 per cell");
     acceptance_grid(&rep);
     cooling(&rep);
